@@ -82,7 +82,7 @@ REQUIRED = {
     'maxvol-index': 100, 'maxvol-value': 100, 'maxvol-order': 100,
     'maxvol-exact-full': 50, 'maxvol-rank1-maxmod': 20,
     'maxvol-rank1-minmax': 20,
-    'func-point': 50, 'func-max': 50, 'func-all': 30,
+    'func-point': 50, 'func-max': 50, 'func-all': 30, 'func-max-redundant': 50,
 }
 REQUIRED_EVENTS = {'beam-calls-internal': 400, 'beam-calls-external': 400,
     'max-calls-internal': 200, 'tt-calls-internal': 50,
@@ -118,7 +118,7 @@ MAXN = 6000          # dense references only up to this many elements
 TT_FAMILIES = ['generic', 'generic', 'int', 'int', 'const', 'const2', 'pos',
     'neg', 'shift', 'shift', 'rank1', 'rank1', 'rank1', 'rank1int',
     'rank1pad', 'overrank', 'deficient', 'mode1', 'd2', 'scaled', 'zero',
-    'tiny', 'huge', 'intdtype', 'intdtype']
+    'tiny', 'huge', 'intdtype', 'intdtype', 'needle', 'needle']
 QTT_FAMILIES = ['generic', 'generic', 'int', 'const', 'pos', 'shift',
     'rank1', 'rank1', 'rank1int', 'overrank', 'zero', 'smooth', 'smooth']
 FUNC_FAMILIES = ['generic', 'generic', 'generic', 'int', 'decay', 'mode1',
@@ -316,6 +316,35 @@ def make_tensor(rng, family, maxN, n=None):
             for G in gen.cores(rng, n, r, 'normal')]
         for G in Y:                       # no all-zero slices by accident
             G[G == 0] = 1. if rng.random() < 0.7 else 0.
+    elif family == 'needle':
+        # nearly constant background (about +-1) whose slices through the
+        # origin are damped by 0.1, plus one large entry at the origin: every
+        # fibre through the large entry has a small norm, a pruning beam
+        # overlooks it in its first pass and finds it in the shifted one
+        # (long outer modes are needed for the beam to be fooled: N up to
+        # ~3500, driven with pruning beams only, see case_tt)
+        if rng.random() < 0.7:
+            n = [int(rng.integers(28, 42)), int(rng.integers(2, 4)),
+                int(rng.integers(28, 42))]
+        else:
+            n = [int(rng.integers(12, 20)), 3, 3, int(rng.integers(12, 20))]
+        d = len(n)
+        sgn = float(rng.choice([-1., 1.]))
+        v = float(rng.uniform(3., 8.))
+        Y = []
+        for k in range(d):
+            a = 1. + 0.02 * rng.random(n[k])
+            a[0] = 0.1
+            s_ = np.zeros(n[k])
+            s_[0] = v ** (1. / d)
+            if k == 0:
+                G = np.stack([a * sgn, s_], axis=1)[None, :, :]
+            elif k == d - 1:
+                G = np.stack([a, s_ * sgn], axis=0)[:, :, None]
+            else:
+                G = np.zeros((2, n[k], 2))
+                G[0, :, 0], G[1, :, 1] = a, s_
+            Y.append(G)
     elif family == 'zero':
         Y = gen.cores(rng, n, r, 'normal')
         Y[int(rng.integers(d))] *= 0.
@@ -777,6 +806,8 @@ def case_tt(case, ctx, teneva, rng):
     inf = tinfo(Y)
     n, N, d = inf.n, inf.N, inf.d
     pruned, full = k_list(rng, N)
+    if case['family'] == 'needle':
+        pruned, full = [1, 2, 5], []
     judged_exact = False
     first = {}
     for k in pruned + full:
@@ -787,7 +818,7 @@ def case_tt(case, ctx, teneva, rng):
         r_max = teneva.optima_tt_max(Y, k)
         r_tt = teneva.optima_tt(Y, k)
         judged_exact = judged_exact or exact
-        if k == full[0]:
+        if full and k == full[0]:
             first = {'k': k, 'optima_tt_max': r_max, 'optima_tt': r_tt}
     # already orthogonalised input (to_orth=False): the same claim about the
     # tensor that is passed in
@@ -797,8 +828,8 @@ def case_tt(case, ctx, teneva, rng):
                 0 if l2r else d - 1, use_stab=True)
             if meta['rank1']:
                 ST.r1.add(id(Z))
-            k = full[0] if rng.random() < 0.5 or not (inf.rank1 and pruned) \
-                else pruned[0]
+            k = pruned[0] if not full else (full[0] if rng.random() < 0.5
+                or not (inf.rank1 and pruned) else pruned[0])
             teneva.optima_tt_beam(Z, k, l2r, False, to_orth=False, p=p)
             ctx.event('beam-to_orth-false')
     # maxvol variant
@@ -1186,6 +1217,43 @@ def case_func(case, ctx, teneva, rng):
         if best > 0:
             ctx.margins['func-max'] = max(ctx.margins.get('func-max', 0.),
                 float((best - val) / best / rtol))
+    # the same rank-1 tensor stored with TT-ranks above 1 (w1 f + w2 f as
+    # block cores, in a random gauge): rank 1 is a property of the tensor,
+    # not of the list of cores
+    if best > 0 and d >= 2:
+        q = int(rng.integers(2, 4))
+        w = rng.uniform(0.5, 2., size=q) * rng.choice([-1., 1.], size=q)
+        if abs(w.sum()) < 0.3:
+            w[0] += 1.
+        R_ = []
+        for j, G in enumerate(A):
+            H = np.zeros((1 if j == 0 else q, G.shape[1],
+                1 if j == d - 1 else q))
+            for t in range(q):
+                H[0 if j == 0 else t, :, 0 if j == d - 1 else t] = \
+                    G[0, :, 0] * (w[t] if j == 0 else 1.)
+            R_.append(H)
+        if rng.random() < 0.6:
+            for j in range(1, d):
+                Mg = rng.normal(size=(q, q)) + 2 * np.eye(q)
+                R_[j - 1] = np.einsum('aib,bc->aic', R_[j - 1], Mg)
+                R_[j] = np.einsum('ab,bic->aic', np.linalg.inv(Mg), R_[j])
+        try:
+            xr = teneva.optima_func_tt_beam(R_, k=k, k_loc=k_loc)
+        except ValueError as ex:
+            ctx.viol('func-raises', 'optima_func_tt_beam raised ValueError('
+                f'{ex}) on a rank-1 tensor stored with TT-ranks {q}')
+            xr = None
+        if xr is not None and ctx.check('func-point', isinstance(xr,
+                np.ndarray) and xr.shape == (d,) and bool(np.all(np.abs(xr)
+                <= 1)), 'optima_func_tt_beam (redundant ranks): result is '
+                'not a point of [-1, 1]^d', result=xr):
+            valr = func_value(xr, A)
+            ctx.check('func-max-redundant', valr >= best * (1 - 10 * rtol -
+                1e-9) - 1e-300, lambda: f'optima_func_tt_beam(k={k}, '
+                f'k_loc={k_loc}) on a rank-1 coefficient tensor stored with '
+                f'TT-ranks {q}: |f(x*)| = {valr!r} < max |f| = {best!r}',
+                x=xr, n=n)
     if not all(np.array_equal(G, H) for G, H in zip(A, A0)):
         ctx.event('func-argument-changed')      # C09's claim, telemetry here
     if len(ctx.samples) < 3:
